@@ -671,6 +671,7 @@ class Engine:
         self.known = known  # [(id, callable)]
         self.trace = []
         self.memo = {}
+        self.derived = {}
 
     # ---- variables -------------------------------------------------------
     def _name(self, name):
@@ -844,6 +845,7 @@ class ConcreteEngine:
         self.trace = []
         self.memo = {}
         self.known = ()
+        self.derived = {}
         self._c = itertools.count()
 
     def _get(self, name, kind):
